@@ -58,8 +58,8 @@ def gen_cases(ctx):
                                   ops=gen_ops(rng, max_ops), shutdown=rng.choice(['provider_first', 'consumer_first'])))
     else:
         for p_tls, p_srv, c_mode, c_srv in itertools.product([False, True], P_SRV, C_MODE, P_SRV):
-            for rep in range(1 if c_mode == 'enforced_noctx' else 2):
-                x = rng.choice(['same', 'same', 'flip', 'flip', 'bad']) if rep else rng.choice(['same', 'flip'])
+            for rep in range(2 if c_mode in ('optional', 'enforced') else 1):
+                x = rng.choice(['same', 'flip']) if rep else rng.choice(['same', 'same', 'same', 'flip', 'flip', 'flip', 'bad'])
                 cases.append(dict(p_tls=p_tls, p_srv=p_srv, p_alt=rng.random() < 0.5, c_mode=c_mode, c_srv=c_srv,
                                   c_alt=rng.random() < 0.5, x=x, ops=gen_ops(rng, max_ops),
                                   shutdown=rng.choice(['provider_first', 'consumer_first'])))
